@@ -2427,11 +2427,18 @@ class Driver(object, metaclass=DriverMetaclass):
             i += size
 
         # Compute and save the gradient of the linear constraints
-        if lincons:
+        if lincons and self.supports['linear_constraints']:
             lincongrad_cache = self._compute_totals(of=list(lincons.keys()),
                                                     wrt=desvar_vals.keys(),
                                                     driver_scaling=driver_scaling,
                                                     return_format='array')
+        elif lincons:
+            # This driver keeps a single total jacobian object (the first one requested), which
+            # must be the one of the nonlinear constraints that is asked for at every iteration.
+            lincongrad_cache = _TotalJacInfo(problem, list(lincons.keys()),
+                                             list(desvar_vals.keys()), 'array',
+                                             approx=model._owns_approx_jac,
+                                             driver_scaling=driver_scaling).compute_totals()
         else:
             lincongrad_cache = np.empty((0, x_init.size))
 
